@@ -10,7 +10,8 @@
     ([IdsOK], [OrdersOK]) — see the NOT PROVED notes at the end. *)
 From Coq Require Import String Ascii List Bool Arith ZArith.
 From LC Require Import MathDefs ValidDefs ValidSpec ValidLeaf ValidMathProofs ValidCompProofs ValidUnitsProofs ValidProofs
-  ValidCitedProofs ValidCited2Proofs ValidCycleProofs ValidIdsProofs ValidWitness ValidXmlName.
+  ValidCitedProofs ValidCited2Proofs ValidCycleProofs ValidIdsProofs ValidWitness ValidXmlName ValidImportProofs
+  ValidNamesProofs ValidIdsEnumProofs.
 Import ListNotations.
 Local Open Scope string_scope.
 Local Open Scope list_scope.
@@ -252,6 +253,71 @@ Theorem C04_xml_name_table_bmp : forall cp, (cp < 0x10000)%N ->
 Proof. exact ValidXmlName.xml_name_table_bmp. Qed.
 Print Assumptions C04_xml_name_table_bmp.
 
+(** THE MAIN EQUIVALENCE WITH RESOLVED COMPONENT IMPORTS.  Well-foundedness: imports point forward in the world
+    ([imports_forward]: a component of model i whose import source has model j satisfies i < j < length W).  WFr = WF plus,
+    for every component of model 0 whose import source has a model: the reference hits, the url-based cycle test does not
+    fire and the TARGET is [Checked] — accepted with its own content in its own model (reset variables decided by component
+    name, as the code does), and so on through the target's own import; NOT the components the target encapsulates
+    (C04_location_free_imported_children_refuted).  The units imports of model 0 are still unresolved ([units_stay_local]). *)
+Theorem C04_validate_iff_resolved_partial : forall fx ueq W, Repr (model_at W 0) -> units_stay_local (model_at W 0) ->
+  imports_forward W -> 0 < length W ->
+  (validate fx ueq false W = [] <-> WFr fx ueq W /\ IdsOK fx W /\ OrdersOK fx W).
+Proof. exact ValidImportProofs.validate_nil_iff_resolved. Qed.
+Print Assumptions C04_validate_iff_resolved_partial.
+
+(** for ANY world and fuel: a component validateComponent is silent about is [Checked] *)
+Theorem C04_component_silent_checked : forall q W fuel mi hist c,
+  validate_component q fuel W mi hist c = [] -> Checked q W mi hist c.
+Proof. exact ValidImportProofs.checked_of_nil. Qed.
+Print Assumptions C04_component_silent_checked.
+
+(** non-vacuity, and the exact extent of the finding: the world whose import target encapsulates a faulty child satisfies WFr *)
+Example C04_resolved_nonvacuous : WFr current_fixes ueq_c08 w_import_child.
+Proof. exact ValidWitness.w_import_child_wfr. Qed.
+Print Assumptions C04_resolved_nonvacuous.
+
+(** THE IDENTIFIER PASS, DECLARATIVELY, on models without map_variables / connection ids and for the tree as it counts import
+    sources now (once per importing entity): what buildModelIdMap collects IS the enumeration ValidIdsEnumProofs.ids_enum of
+    the id carriers in document order, so the pass is silent iff the encapsulation ids are XML names and no id repeats. *)
+Theorem C04_ids_collected_enum_partial : forall fx m, fx_isrc_once fx = false -> no_mapping_ids m ->
+  ia_ids (model_idacc fx m) = ids_enum m
+  /\ ia_issues (model_idacc fx m) = enc_issue (m_encid m) ++ flat_map (fun c => enc_issue (c_encid (c_info c))) (model_comps m).
+Proof. exact ValidIdsEnumProofs.ids_collected_enum. Qed.
+Print Assumptions C04_ids_collected_enum_partial.
+
+Theorem C04_ids_declarative_partial : forall fx W, fx_isrc_once fx = false -> no_mapping_ids (model_at W 0) ->
+  (IdsOK fx W <-> (XmlName (m_encid (model_at W 0)) /\ Forall (fun c => XmlName (c_encid (c_info c))) (model_comps (model_at W 0)))
+                  /\ NoDup (ids_enum (model_at W 0))).
+Proof. exact ValidIdsEnumProofs.ids_ok_declarative. Qed.
+Print Assumptions C04_ids_declarative_partial.
+
+(** RULE CITED, the remaining rules: names must be unique; interface insufficient. *)
+Theorem C04_rule_cited_component_name_unique : forall fx ueq early W,
+  clash [] (nenames (model_comps (model_at W 0))) ->
+  exists c', In c' (model_comps (model_at W 0)) /\ In (Error, unique_name_rule (c_info c')) (validate fx ueq early W).
+Proof. exact ValidNamesProofs.component_name_unique_cited. Qed.
+Print Assumptions C04_rule_cited_component_name_unique.
+
+(** ([clash [] l]: some element of l occurs earlier in l — e.g. any list of the form l1 ++ n :: l2 ++ n :: l3) *)
+Theorem C04_clash_of_repeat : forall l1 n l2 l3, clash [] (l1 ++ n :: l2 ++ n :: l3).
+Proof. exact ValidNamesProofs.clash_of_repeat. Qed.
+Print Assumptions C04_clash_of_repeat.
+
+Theorem C04_rule_cited_units_name_unique : forall fx ueq early W u, In u (m_units (model_at W 0)) ->
+  1 < count_if (fun t => String.eqb (u_name t) (u_name u)) (m_units (model_at W 0)) ->
+  In (Error, V_UNITS_NAME_UNIQUE) (validate fx ueq early W) \/ In (Error, V_IMPORT_UNITS_NAME_UNIQUE) (validate fx ueq early W).
+Proof. exact ValidCited2Proofs.units_name_unique_cited. Qed.
+Print Assumptions C04_rule_cited_units_name_unique.
+
+Theorem C04_rule_cited_interface_insufficient : forall fx ueq W me,
+  In me (model_locs (model_at W 0)) -> l_import me = false -> v_eqs (l_var me) <> [] -> valid_iface (v_iface (l_var me)) ->
+  Forall (fun e => exists o, lookup_var (model_locs (model_at W 0)) (e_to e) = Some o
+                             /\ (Sibling me o \/ ChildOf me o \/ ChildOf o me)) (v_eqs (l_var me)) ->
+  ~ InterfaceOK (model_locs (model_at W 0)) me ->
+  In (Error, V_MAP_VARIABLES_ELEMENT) (validate fx ueq false W).
+Proof. exact ValidCited2Proofs.interface_insufficient_cited. Qed.
+Print Assumptions C04_rule_cited_interface_insufficient.
+
 (** REFUTED on the tree before the repairs 5d61678 / a5130f0 / 1c340b4 (the witnesses replayed on the real library were
     the findings): soundness — accepted although a rule is broken: duplicate reset orders across an indirectly connected
     variable set; an empty <ci> inside <bvar>; a map_variables id that is not an XML name on a pair with colliding name
@@ -292,13 +358,14 @@ Theorem C04_validate_complete_current_partial : forall ueq W, Repr (model_at W 0
 Proof. exact ValidWitness.validate_complete_current. Qed.
 Print Assumptions C04_validate_complete_current_partial.
 
-(* NOT PROVED: the declarative counterparts of the two model-wide passes, i.e.
-     IdsOK fx W  <->  every id of the document is an XML name /\ NoDup (ValidSpec.entity_ids + mapping / connection ids)
-     OrdersOK current_fixes W  <->  ValidSpec.ResetOrdersUnique (model_at W 0)  (and its refutation for [unfixed] beyond the witness above)
-   Both passes are fold-with-accumulator transcriptions (buildModelIdMap, buildModelResetOrderMap); they are tied to the
-   code by the correspondence run and enter C04_validate_iff_partial through their own verdict.
-   NOT PROVED: the equivalence for worlds whose model 0 has RESOLVED imports (validateUnits / validateComponent then
-   recurse into the attached models); what is proved there is C04_location_free_imported_component (issues of the import
-   target are reported) and the refutation for its children.
-   NOT PROVED (kernel-checked once, too slow for the build): C04_xml_name_table_bmp for the supplementary planes
-   (0x10000 .. 0x10FFFF; `sweep 0x110000 = (0x110000, true)` by vm_compute takes minutes). *)
+(* NOT PROVED:
+   - the declarative form of the reset-order pass (OrdersOK current_fixes W <-> ValidSpec.ResetOrdersUnique (model_at W 0)): it needs
+     "equivalentVariables (a fuelled depth-first walk) = the class of the symmetric-transitive closure of the mappings" under a
+     symmetry hypothesis on the equivalence lists; what is proved is C04_orders_pass (silent iff every group of the order map has
+     pairwise distinct orders) and the witness for the tree before the repair;
+   - the declarative form of the identifier pass when map_variables / connection ids are present (the "one of the two visits of
+     a pair" selection by name order and the per-component-pair connection ids); proved without them: C04_ids_declarative_partial;
+   - the main equivalence when UNITS imports of model 0 are resolved (validateUnits then recurses into the attached model with
+     another source url, which delays the cycle test by one lap); proved: resolved COMPONENT imports
+     (C04_validate_iff_resolved_partial) and, for units, C04_location_free_units / the correspondence run;
+   - C04_xml_name_table_bmp for the supplementary planes (kernel-checked once, 6 min, not in the build). *)
